@@ -660,6 +660,44 @@ def check_lane_maps(ctx, u, methods):
         d = callee_decl(c, u)
         t = (d or {}).get('type', {}).get('qualType', '')
         ctx.check(t.startswith('long (long') or t.startswith('long long'), R, 'draw_line|abs#%d' % i, c, 'abs resolves to the long overload', 'abs resolves to `%s`: 64-bit coordinate differences are truncated' % t)
+    # walk state of the line rasteriser: the major-axis loop starts at the endpoint the
+    # minor coordinate and the error term were initialised for, and runs to the other endpoint
+    dlb = body_of(dl[0])
+    loops_dl = [x for x in walk(dlb) if x.get('kind') == 'ForStmt' and any(c.get('kind') == 'CXXMemberCallExpr' and call_name(c) == 'write_pixel' for c in walk(x))]
+    ctx.require(len(loops_dl) == 1, 'draw_line: rasterising loop not found')
+    init, cv, cond, inc, lb = for_parts(loops_dl[0])
+    xv = next((x for x in walk(init) if x.get('kind') == 'VarDecl'), None) if init else None
+    ctx.require(xv is not None and kids(xv), 'draw_line: loop variable not found')
+    dxs = [vd for vd in walk(dlb) if vd.get('kind') == 'VarDecl' and kids(vd) and strip(kids(vd)[-1]).get('kind') == 'BinaryOperator' and strip(kids(vd)[-1]).get('opcode') == '-'
+           and not any(c.get('kind') == 'CallExpr' for c in walk(vd)) and (dtype(vd) or '') in ('long', 'ssize_t', 'long long')]
+    ctx.require(len(dxs) >= 1, 'draw_line: major-axis delta (`dx = x1 - x0`) not found')
+    dxn = strip(kids(dxs[0])[-1])
+    X1, X0 = canon(dxn['inner'][0]), canon(dxn['inner'][1])
+    steps = [vd for vd in walk(dlb) if vd.get('kind') == 'VarDecl' and kids(vd) and strip(kids(vd)[-1]).get('kind') == 'ConditionalOperator' and (dtype(vd) or '') in ('long', 'ssize_t', 'long long', 'int')]
+    ctx.require(len(steps) >= 1, 'draw_line: minor-axis step (`ystep = (y0 < y1) ? 1 : -1`) not found')
+    r_ = relation(kids(strip(kids(steps[0])[-1]))[0], True)
+    ctx.require(r_ is not None, 'draw_line: step direction test not recognised')
+    Y0 = canon(r_[0]) if r_[1] in ('<', '<=') else canon(r_[2])
+    # the minor coordinate: the variable incremented by the step
+    yv = None
+    for a in walk(lb):
+        if a.get('kind') == 'CompoundAssignOperator' and a.get('opcode') == '+=' and (ref_decl(a['inner'][1]) or {}).get('id') == steps[0]['id']:
+            yv = u.by_id.get((ref_decl(a['inner'][0]) or {}).get('id'))
+    ctx.require(yv is not None and kids(yv), 'draw_line: minor coordinate (`y += ystep`) not found')
+    errs = [vd for vd in walk(dlb) if vd.get('kind') == 'VarDecl' and kids(vd) and (dtype(vd) or '') in ('double', 'float') and any(a.get('kind') == 'CompoundAssignOperator' and (ref_decl(a['inner'][0]) or {}).get('id') == vd['id'] for a in walk(lb))]
+    x_init = canon(kids(xv)[-1])
+    y_init = canon(kids(yv)[-1])
+    err_zero = bool(errs) and all(canon(kids(e)[-1]) in ('0', '0.0') or int_value(kids(e)[-1]) == 0 for e in errs)
+    if x_init != X0 and not (y_init == Y0 and err_zero):
+        raise AnalysisBroken('draw_line: the walk starts at %s with minor coordinate %s: not a form this rule can decide' % (x_init, y_init))
+    ctx.check(x_init == X0 and y_init == Y0 and err_zero, R, 'draw_line|walk-start', loops_dl[0], 'walk starts at (%s, %s) with zero error' % (X0, Y0),
+              'the walk starts at major coordinate `%s` while the minor coordinate and error term are those of the endpoint `%s`: the drawn pixels are shifted off the ideal segment' % (x_init, X0))
+    rc = relation(cond, True) if cond else None
+    inc_ok = inc is not None and strip(inc).get('kind') == 'UnaryOperator' and strip(inc).get('opcode') == '++' and (ref_decl(strip(inc)['inner'][0]) or {}).get('id') == xv['id']
+    end_ok = rc is not None and (ref_decl(rc[0]) or {}).get('id') == xv['id'] and rc[1] == '<=' and canon(rc[2]) == X1
+    if x_init == X0:
+        ctx.check(inc_ok and end_ok, R, 'draw_line|walk-extent', loops_dl[0], 'one pixel per major-axis step from %s to %s inclusive' % (X0, X1),
+                  'the walk does not visit every major-axis coordinate from %s to %s inclusive in steps of one (condition `%s`)' % (X0, X1, src_text(cond, 40) if cond else ''))
     # glyph index bounds
     dt = [m for m in methods if m.get('name') == 'draw_text_v']
     ctx.require(len(dt) == 1, 'draw_text_v not found')
